@@ -127,6 +127,8 @@ class RecListener(plumpy.ProcessListener):
             self.run._trigger(['listener', name, n])
         if self.raising is True or (self.raising == 'terminal' and name in ('finished', 'killed', 'excepted')):
             # a broken observer: plumpy logs this and carries on with the other listeners
+            if name in ('finished', 'killed', 'excepted') and self.channel != 'listener':
+                raise _Unprintable()  # ... whatever the exception looks like (this one cannot even be printed)
             raise RuntimeError('listener %s is broken (%s)' % (self.channel, name))
 
     def on_process_running(self, process):
@@ -152,6 +154,13 @@ class RecListener(plumpy.ProcessListener):
 
     def on_process_killed(self, process, msg):
         self._ev('killed', process, msg)
+
+
+class _Unprintable(Exception):
+    def __str__(self):
+        raise IndexError('this exception has no printable form')
+
+    __repr__ = __str__
 
 
 def _failing_cleanup(which='function'):
